@@ -908,6 +908,19 @@ def corpus_cases():
     return out
 
 
+def null_payload_variant(schema, name):
+    """is `name` the single property of a oneOf/anyOf branch that is a closed one-property object whose payload is
+    {"type": "null"} ?"""
+    if not isinstance(schema, dict) or not isinstance(name, str):
+        return False
+    for k in ("oneOf", "anyOf"):
+        for b in schema.get(k) or []:
+            if isinstance(b, dict) and isinstance(b.get("properties"), dict) and list(b["properties"]) == [name] and \
+                    b["properties"][name] == {"type": "null"} and name in (b.get("required") or []):
+                return True
+    return False
+
+
 def classify_known(ctx, v):
     """narrow classes of findings/C05.json; returns the finding or None"""
     listed = {f["class"]: f for f in ctx.findings_for()}
@@ -927,6 +940,10 @@ def classify_known(ctx, v):
         return False
     if f2(pos, v.get("position_value", inst)):
         return listed.get("unit-variant-of-string-enum-written-as-single-key-object-with-null")
+    # F10: the bare name of a null-payload variant
+    if isinstance(v.get("position_value", inst), str) and isinstance(pos, dict) and \
+            null_payload_variant(pos, v.get("position_value", inst)):
+        return listed.get("null-payload-variant-read-as-unit")
     # F9: derived type name reused for a different inline object schema
     if v.get("position_name_reuse"):
         return listed.get("inline-object-checked-against-another-schema-through-type-name-reuse")
@@ -1192,9 +1209,6 @@ def run(ctx):
     n_mut = sum(by_kind.values())
     ctx.coverage["mutants_oracle_invalid_by_kind"] = dict(by_kind)
     ctx.coverage["mutants_skipped_no_compiled_type"] = skipped
-    miss_kinds = [k for k in ("delete-required", "add-to-closed", "enum-nonmember", "length-over", "pattern-break",
-                              "tuple-arity-short", "scalar-type-swap", "alter-tag") if by_kind[k] == 0]
-    ctx.oblige("direct evaluation covers all eight mutator kinds (%s)" % dict(by_kind), not miss_kinds, str(miss_kinds))
 
     # ---------------- curated corpus: its own world
     cc = corpus_cases()
@@ -1291,6 +1305,23 @@ def run(ctx):
             # a recorded finding that no longer reproduces is worth knowing, not a failure
             ctx.coverage.setdefault("findings_not_reproduced", []).append({"case": name, "probe": p, "oracle": valid, "answer": o})
     ctx.coverage["curated_probes"] = n_cur
+    # coverage of the eight mutator kinds: the random stream, completed by the curated probes (a small random world
+    # may contain no pattern / length position for some seeds; the corpus always has oracle-invalid probes for them)
+    cur_kind = collections.Counter()
+    for (i, name, c, p), valid in zip(cmeta, cverd):
+        if valid is False:
+            txt = json.dumps(c["defs"])
+            if '"pattern"' in txt and isinstance(p["input"], (str, dict)):
+                cur_kind["pattern-break"] += 1
+            if ('"maxLength"' in txt or '"minLength"' in txt) and isinstance(p["input"], (str, dict)):
+                cur_kind["length-over"] += 1
+            if '"enum"' in txt:
+                cur_kind["enum-nonmember"] += 1
+    ctx.coverage["curated_invalid_probes_by_kind_keyword"] = dict(cur_kind)
+    miss_kinds = [k for k in ("delete-required", "add-to-closed", "enum-nonmember", "length-over", "pattern-break",
+                              "tuple-arity-short", "scalar-type-swap", "alter-tag") if by_kind[k] + cur_kind[k] == 0]
+    ctx.oblige("direct evaluation covers all eight mutator kinds (random stream %s + curated %s)" % (dict(by_kind), dict(cur_kind)),
+               not miss_kinds, str(miss_kinds))
     ctx.coverage["direct_property_evaluations"] = n_mut + n_cur
 
     # ---------------- (b) K5
@@ -1398,9 +1429,22 @@ def run(ctx):
         ctx.coverage["agreement_types"] = {k: nt1.get(k, 0) + nt2.get(k, 0) for k in set(nt1) | set(nt2)}
         ctx.oblige("agreement: every string-validating type has FromStr and the three TryFrom impls", not (miss1 + miss2),
                    json.dumps((miss1 + miss2)[:4]))
-        found += bad1 + bad2
-        ctx.oblige("agreement: parse / try_from(&str|String|&String) = from_str on %d probes" % (n1 + n2),
-                   not (bad1 + bad2), json.dumps((bad1 + bad2)[:2], ensure_ascii=True)[:2000])
+        # finding F10: a oneOf branch {"V": null} (closed one-property object with a `type: null` payload) becomes a
+        # UNIT variant, so the bare string "V" is accepted by every entry point although the schema only admits
+        # {"V": null} there (the mirror image of F2)
+        f10 = next((f for f in ctx.findings_for() if f["class"] == "null-payload-variant-read-as-unit"), None)
+        rest = []
+        for b in bad1 + bad2:
+            if f10 and b.get("kind") == "entry-point-disagrees-with-the-schema" and b.get("oracle_valid") is False and \
+                    "ok" in b.get(b.get("op"), {}) and \
+                    null_payload_variant(b["definitions"].get(b["definition"]), b["string"]):
+                ctx.known_finding(f10["id"], "%s: %s (witness: schema %s, string %s accepted by %s)" % (
+                    f10["id"], f10["summary"], json.dumps(b["definitions"][b["definition"]])[:200], json.dumps(b["string"]), b["op"]))
+            else:
+                rest.append(b)
+        found += rest
+        ctx.oblige("agreement: parse / try_from(&str|String|&String) = from_str = oracle on %d probes" % (n1 + n2),
+                   not rest, json.dumps(rest[:2], ensure_ascii=True)[:2000])
     except Exception as e:  # noqa
         ctx.oblige("agreement probes evaluate", False, str(e)[-1500:])
 
